@@ -295,7 +295,11 @@ def build_adapter(rules, order, strict, merge, late=0):
             kw["strict_slashes"] = r["strict"]
         if r.get("merge") is not None:
             kw["merge_slashes"] = r["merge"]
-        rl.append(Rule(R.rule_str(r), endpoint=r["ep"], methods=r["methods"], **kw))
+        ms = r["methods"]
+        if ms is not None:
+            # the method set in any iterable spelling (list, tuple, set, one-shot iterators)
+            ms = (list, tuple, frozenset, iter, lambda m: (x for x in m), lambda m: map(str, m))[(len(rl) + len(ms) + i) % 6](ms)
+        rl.append(Rule(R.rule_str(r), endpoint=r["ep"], methods=ms, **kw))
     if late and len(rl) >= 2:
         # history: the map is bound and used (which sorts its rules and compiles the matcher) before its last rules arrive
         m = Map(rl[:-late], strict_slashes=strict, merge_slashes=merge)
@@ -490,6 +494,56 @@ def concurrent_first_match(rec, rng, n):
                         rec.violation("C03/concurrent-first-use-matches-differently", f"thread {i}: match({p!r}) = {got!r}, a map sorted before its first use gives {expected[p]!r}; rules {[r for r, _ in specs][:8]}...",
                                       {"rules": [r for r, _ in specs], "path": p}, monitor="schedule-stress")
                         break
+        # ---- steady state: the map is sorted and in use; requests of different kinds (match, 404, 405 with different
+        # method sets) overlap on it.  Yields are injected inside the matcher's match() and its nested helpers.
+        for c in codes:
+            mon.set_local_events(TOOL, c, 0)
+        mcodes = [c for c in (opt(lambda: MM.StateMachineMatcher.match.__code__),) if c is not None]
+        for c in list(mcodes):
+            mcodes += [k for k in c.co_consts if hasattr(k, "co_code")]
+        for c in mcodes:
+            mon.set_local_events(TOOL, c, mon.events.LINE)
+        codes += mcodes
+        specs = [("/m/<int:x>", "i", ["GET"]), ("/m/<string:s>", "s", ["POST", "PUT"]), ("/m/fixed", "f", ["DELETE"]), ("/n/<path:p>", "p", None),
+                 ("/o/<int:x>/", "b", ["PATCH"]), ("/o/<string:s>", "l", ["GET"])]
+        m = Map([Rule(r, endpoint=e, methods=ms) for r, e, ms in specs])
+        ad = m.bind("h.com")
+        reqs = [(p, meth) for p in ("/m/5", "/m/abc", "/m/fixed", "/n/a/b", "/o/7", "/o/7/", "/p", "/m/") for meth in ("GET", "POST", "PUT", "DELETE", "PATCH")]
+
+        def outcome2(p, meth):
+            try:
+                ep, args = ad.match(p, method=meth)
+                return (ep, tuple(sorted(args.items())))
+            except HTTPException as e:
+                return (type(e).__name__, tuple(sorted(getattr(e, "valid_methods", None) or ())))
+            except Exception as e:  # noqa: BLE001
+                return ("EXC:" + type(e).__name__,)
+
+        expected2 = {rq: outcome2(*rq) for rq in reqs}
+        wrong = []
+        old_si = sys.getswitchinterval()
+        sys.setswitchinterval(1e-5)
+        try:
+            def steady(i):
+                r_ = __import__("random").Random(i)
+                for _ in range(120):
+                    rq = r_.choice(reqs)
+                    got = outcome2(*rq)
+                    if got != expected2[rq] and len(wrong) < 3:
+                        wrong.append((rq, got, expected2[rq]))
+
+            ts = [threading.Thread(target=steady, args=(i,)) for i in range(4)]
+            for t in ts:
+                t.start()
+            for t in ts:
+                t.join(120)
+        finally:
+            sys.setswitchinterval(old_si)
+        rec.case()
+        rec.observe("concurrent_steady_state_matches", 480)
+        rec.nontrivial(("conc-steady", len(reqs)))
+        for rq, got, exp in wrong[:1]:
+            rec.violation("C03/concurrent-matches-interfere", f"match{rq!r} on one of 4 threads gave {got!r}; alone it gives {exp!r}", {"rules": [r for r, _, _ in specs], "request": list(rq)}, monitor="schedule-stress")
     finally:
         for c in codes:
             mon.set_local_events(TOOL, c, 0)
